@@ -747,6 +747,7 @@ paf24_write_i (SF_PRIVATE *psf, const int *ptr, sf_count_t len)
 
 	while (len > 0)
 	{	writecount = (len > 0x10000000) ? 0x10000000 : (int) len ;
+		writecount -= writecount % ppaf24->channels ;
 
 		count = paf24_write (psf, ppaf24, ptr + total, writecount) ;
 
